@@ -69,6 +69,8 @@ def reader_source(ctx, idx, d, rule="C17.f"):
     uses = K.state_uses(idx, fi)
     cfg = K.cfg_of(idx, fi)
     opens = cfg.find("call", lambda n: n.meta.get("qual") in ("builtins.open", "io.open", "codecs.open"))
+    if uses and K.state_is_content_checked(idx, fi, uses):
+        raise AnalysisError("%s: the reader keeps module-level state `%s` but compares it with the text it has just read before reusing it (a content-validated cache): cannot decide whether the validation is complete" % (rule, uses[0][2][1]))
     if uses:
         f_, n_, (m_, nm_) = uses[0]
         ctx.violate(rule, con, d.module.rel, n_.lineno, "the rows come through module-level state `%s.%s` kept between executions: a file changed since it was first read (rewritten by EEMSWrite, edited) is read back with its old content" % (m_, nm_))
@@ -87,7 +89,10 @@ def reader_source(ctx, idx, d, rule="C17.f"):
     for rd_ in readers:
         src_e = K.expand(fi, rd_.args[0])
         bad = None
+        in_filter = {id(y) for c_ in ast.walk(src_e) if isinstance(c_, (ast.GeneratorExp, ast.ListComp)) for g_ in c_.generators for t_ in g_.ifs for y in ast.walk(t_)}
         for x in ast.walk(src_e):
+            if id(x) in in_filter:
+                continue  # a test that drops whole lines (blank ones) does not change the lines that are kept
             if isinstance(x, ast.Call) and isinstance(x.func, ast.Attribute):
                 if x.func.attr == "splitlines":
                     keep = (x.args and isinstance(x.args[0], ast.Constant) and x.args[0].value is True) or any(k.arg == "keepends" and isinstance(k.value, ast.Constant) and k.value.value is True for k in x.keywords)
@@ -243,7 +248,23 @@ def run(ctx, idx):
         if isinstance(n, ast.Call):
             q = idx.qualname(fi.module, n.func, fi) or K.src(n.func)
             nm = q.split(".")[-1]
-            if nm in ("round", "around", "rint", "astype", "floor", "ceil", "trunc", "float32", "float16", "int", "int32", "int64", "format_float_positional", "format_float_scientific", "array2string", "savetxt"):
+            if nm == "savetxt":
+                # numpy.savetxt(..., fmt=...): "%s" / "%r" print the shortest text that reads back to the same double, the default
+                # "%.18e" and any precision of 17 significant digits or more are exact as well; anything shorter rounds
+                fmt_ = next((k.value for k in n.keywords if k.arg == "fmt"), n.args[2] if len(n.args) > 2 else None)
+                exact = fmt_ is None
+                if isinstance(fmt_, ast.Constant) and isinstance(fmt_.value, str):
+                    import re as _re
+                    m_ = _re.fullmatch(r"%(?:\.(\d+))?([srgeEfG])", fmt_.value)
+                    exact = bool(m_) and (m_.group(2) in "sr" or (m_.group(1) is not None and ((m_.group(2) in "gG" and int(m_.group(1)) >= 17) or (m_.group(2) in "eE" and int(m_.group(1)) >= 16))))
+                if not exact:
+                    lossy.append((n, "savetxt with a rounding format"))
+                elif n.args and len(n.args) > 1 and isinstance(n.args[1], ast.Name) and "astype(str)" in " ".join(K.src(st) for st in own_nodes(fi.node) if isinstance(st, ast.Assign)):
+                    pass
+                continue
+            if nm in ("round", "around", "rint", "astype", "floor", "ceil", "trunc", "float32", "float16", "int", "int32", "int64", "format_float_positional", "format_float_scientific", "array2string"):
+                if nm == "astype" and n.args and K.src(n.args[0]) in ("str", "object", "numpy.str_"):
+                    continue  # a rendering of each cell as text (str() of a double is its shortest exact text), not a numeric cast
                 lossy.append((n, nm))
             if isinstance(n.func, ast.Attribute) and n.func.attr == "format" and isinstance(n.func.value, ast.Constant) and any(x in str(n.func.value.value) for x in (":.", ":e", ":f", ":g", ":d")):
                 lossy.append((n, "format spec"))
@@ -259,6 +280,9 @@ def run(ctx, idx):
             inner = [c for c in ast.walk(lp) if isinstance(c, ast.Call) and isinstance(c.func, ast.Attribute) and c.func.attr == "writerow"]
             if inner and ("shape[0]" in K.src(lp.iter) or "out_arr" in K.src(lp.iter) or "range(" in K.src(lp.iter)):
                 wrows = inner
+    if not wrows:
+        # the whole table handed to numpy.savetxt in one go
+        wrows = [n for n in own_nodes(fi.node) if isinstance(n, ast.Call) and (idx.qualname(fi.module, n.func, fi) or "") == "numpy.savetxt"]
     if lossy:
         ctx.violate("C17.e", con, d.module.rel, lossy[0][0].lineno, "`%s` (%s) sits between the result arrays and the file: written values are no longer the computed doubles" % (K.src(lossy[0][0])[:60], lossy[0][1]))
     elif not wrows:
